@@ -1,10 +1,12 @@
 /-
   C05 — property theorems (see DESIGN.md §5 C05).
-  Property theorems only; lemmas live in GoDebian/Lemmas/ArchRoundTrip.lean.
+  Property theorems only; lemmas live in GoDebian/Lemmas/ArchRoundTrip.lean and
+  GoDebian/Lemmas/DepFix{Basic,Inv,Total,Render,Ctl,Poss,Fix}.lean.
 -/
 import GoDebian.Model.Dependency
 import GoDebian.Lemmas.ArchIs
 import GoDebian.Lemmas.ArchRoundTrip
+import GoDebian.Lemmas.DepFixFix
 
 namespace GoDebian.Props.C05
 open GoDebian GoDebian.Dep
@@ -37,6 +39,52 @@ example :
     (⟨sAny, sAny, sAll⟩ : Arch).render = Bytes.ofString "any-all" ∧
     (⟨Bytes.ofString "a", Bytes.ofString "b", Bytes.ofString "c-d"⟩ : Arch).render =
       Bytes.ofString "a-b-c-d" := by
+  decide +kernel
+
+/-! ### dependencies: parse, render, parse -/
+
+/-- What `Parse` can return, on arbitrary input bytes (`Lemmas.DepFix.OutInv`): every
+    relation is non-empty; a substvar is exactly `⟨name, nil, nil, [], nil, true⟩` with a
+    name free of NUL and '}'; a package has a non-empty name that does not start with '$'
+    and contains no name-stop byte (':' white space '(' ',' '|' NUL — but it may contain
+    '[' or '<', as in "foo:any[x]"), a qualifier and arch-list entries that come from
+    `ParseArch` of stop-free names, an arch list that is non-empty or the initial
+    `⟨false, []⟩`, one of the five operators with a number free of NUL, ')' and leading or
+    trailing white space, and non-empty stage sets of stages that have a '!' or a
+    non-empty name free of NUL, '!', '>' and white space. -/
+theorem C05_output_invariant (s : Bytes) (d : Dependency) (h : Dep.parse s = .ok d) :
+    Lemmas.DepFix.OutInv d :=
+  Lemmas.DepFix.parse_outInv h
+
+/-- The invariant excludes values: a dependency with an empty relation does not satisfy it. -/
+example : ¬ Lemmas.DepFix.OutInv [[]] := fun h => (h [] (by simp)).1 rfl
+
+/-- For every string the parser accepts, the rendered form is accepted and parses to the
+    identical value: nothing is lost by `String()`. -/
+theorem C05_fixpoint (s : Bytes) (d : Dependency) (h : Dep.parse s = .ok d) :
+    Dep.parse (Dep.render d) = .ok d :=
+  Lemmas.DepFix.parse_fixpoint h
+
+/-- Rendering reaches a fixpoint in one step. -/
+theorem C05_render_stable (s : Bytes) (d : Dependency) (h : Dep.parse s = .ok d) :
+    ∃ d', Dep.parse (Dep.render d) = .ok d' ∧ Dep.render d' = Dep.render d :=
+  ⟨d, C05_fixpoint s d h, rfl⟩
+
+/-- Accepted inputs far from canonical form: a qualifier in the middle of the name, a
+    second qualifier that overrides the first, controllers in a non-canonical order, an
+    empty stage name, an empty arch list and an empty stage set (dropped), a substvar
+    glued to the next possibility, a version after a substvar (dropped), empty relations
+    and alternatives (dropped), odd spacing inside the version.  Their renderings differ
+    from the input and re-parse to the same value. -/
+example :
+    (Dep.parse (Bytes.ofString "foo:any[x]:all (>=  1 2  ) <a !b> <!> [] [!x !y] <>")).map Dep.render =
+      .ok (Bytes.ofString "foo[x]:all [!x !y] (>= 1 2) <a !b> <!>") ∧
+    Dep.parse (Bytes.ofString "foo[x]:all [!x !y] (>= 1 2) <a !b> <!>") =
+      Dep.parse (Bytes.ofString "foo:any[x]:all (>=  1 2  ) <a !b> <!> [] [!x !y] <>") ∧
+    (Dep.parse (Bytes.ofString "  ${foo}bar (>==1),, ${x} (>= 2)| |z:linux-any-amd64 ,")).map Dep.render =
+      .ok (Bytes.ofString "${foo} | bar (>= =1), ${x} | z:linux-any-amd64") ∧
+    Dep.parse (Bytes.ofString "${foo} | bar (>= =1), ${x} | z:linux-any-amd64") =
+      Dep.parse (Bytes.ofString "  ${foo}bar (>==1),, ${x} (>= 2)| |z:linux-any-amd64 ,") := by
   decide +kernel
 
 end GoDebian.Props.C05
